@@ -4,6 +4,7 @@ import (
 	"context"
 	"io"
 	"net/http"
+	"sync"
 	"sync/atomic"
 )
 
@@ -121,7 +122,8 @@ func (ds Dumpers) DumpResponseHeader(p []byte) {
 type Dumper struct {
 	Options
 	ch      chan *dumpTask
-	running int32 // 1 while Start is draining ch
+	running int32      // 1 while Start is draining ch
+	mu      sync.Mutex // serialises synchronous writes: one exchange is dumped from several goroutines
 }
 
 type dumpTask struct {
@@ -165,7 +167,9 @@ func (d *Dumper) DumpTo(p []byte, output io.Writer) {
 		d.ch <- &dumpTask{Data: b, Output: output}
 		return
 	}
+	d.mu.Lock()
 	output.Write(p)
+	d.mu.Unlock()
 }
 
 func (d *Dumper) DumpDefault(p []byte) {
